@@ -763,3 +763,6 @@ func DescribeRules(rules []*Decl) string {
 	}
 	return b.String()
 }
+
+// EvalRHS evaluates a right-hand side in a given environment (bounded to n terminals).
+func EvalRHS(r *RHS, env map[string]Lang, n int, _ []*Decl) Lang { return evalRHS(r, env, n) }
